@@ -213,8 +213,12 @@ pub fn iter_cmd(v: &Value) -> Value {
         Box::new(ThreeValuedInterpretationsIterator::new(&vec))
     };
     let mut items = Vec::new();
+    let limit = v["limit"].as_u64().unwrap_or(0) as usize;
     while let Some(x) = it.next() {
         items.push(Value::Array(x.iter().map(|t| json!(t.value().to_string())).collect()));
+        if limit > 0 && items.len() >= limit {
+            return json!({"items": items, "after": [false, false], "truncated": true});
+        }
         if items.len() > 100000 {
             return json!({"error": "does not end"});
         }
@@ -263,6 +267,8 @@ pub fn bdd_query(v: &Value) -> Value {
         "passive": (0..n).map(|x| bdd.passive_var_impact(Var(x), &adf.ac)).collect::<Vec<_>>(),
         "active": (0..n).map(|x| bdd.active_var_impact(Var(x), &adf.ac)).collect::<Vec<_>>(),
         "facet_models": mcj(adf.facet_count(&adf.ac)[fi].0),
+        "active_partial": (0..n - 1).map(|x| bdd.active_var_impact(Var(x), &adf.ac[..n - 1])).collect::<Vec<_>>(),
+        "passive_partial": (0..n).map(|x| bdd.passive_var_impact(Var(x), &adf.ac[..n - 1])).collect::<Vec<_>>(),
         "cubes": cubes,
         "nodes": dump_nodes(bdd),
     })
@@ -600,8 +606,19 @@ pub fn adf_persist(v: &Value) -> Value {
 use adf_bdd::adfbiodivine::Adf as BdAdf;
 
 fn parse_sorted<'a>(parser: &'a AdfParser<'a>, text: &'a str, sort: &str) -> bool {
+    parse_sorted_reuse(parser, text, sort, false)
+}
+
+/// `reuse`: the parser object has already been used to build ADFs on both representations before the sort mode is applied
+fn parse_sorted_reuse<'a>(parser: &'a AdfParser<'a>, text: &'a str, sort: &str, reuse: bool) -> bool {
     if parser.parse()(text).is_err() {
         return false;
+    }
+    if reuse {
+        let _ = Adf::from_parser(parser);
+        if std::panic::catch_unwind(std::panic::AssertUnwindSafe(|| { let _ = BdAdf::from_parser(parser); })).is_err() {
+            // labels the biodivine library cannot represent: recorded elsewhere (known finding D8), irrelevant for the reuse history
+        }
     }
     match sort {
         "lexi" => {
@@ -641,7 +658,7 @@ pub fn compile_cmd(v: &Value) -> Value {
 pub fn sem_text(v: &Value) -> Value {
     let text = v["text"].as_str().unwrap().to_string();
     let parser = AdfParser::default();
-    if !parse_sorted(&parser, &text, v["sort"].as_str().unwrap_or("none")) {
+    if !parse_sorted_reuse(&parser, &text, v["sort"].as_str().unwrap_or("none"), v["reuse"].as_bool().unwrap_or(false)) {
         return json!({"error": "parse"});
     }
     let backend = v["backend"].as_str().unwrap_or("naive");
